@@ -114,7 +114,7 @@ def parseSfxTok (t : String) : Option Sfx :=
   | _ => none
 
 mutual
-/-- operand tokens: `w,<hex>` | `p,<hex>` | `fw,<hex>,<hex>` | `fp,<hex>,<hex>` | `ps,<hex>,<sfx>` | `fps,<hex>,<hex>,<sfx>` (sfx `-`|`*`|`s<digits>`) | `n,<k>,Opd` | `g,<lead>,<occ>,<k>,<n>,Opd, n × (<op>,<occ>,<sp1>,<sp2>,Opd)` -/
+/-- operand tokens: `w,<hex>` | `p,<hex>` | `fw,<hex>,<hex>` | `fp,<hex>,<hex>` | `ps,<hex>,<sfx>` | `fps,<hex>,<hex>,<sfx>` (sfx `-`|`*`|`s<digits>`) | `r,<lo>,<hi>,<hex>,<hex>` | `fr,<hex>,<lo>,<hi>,<hex>,<hex>` | `n,<k>,Opd` | `g,<lead>,<occ>,<k>,<n>,Opd, n × (<op>,<occ>,<sp1>,<sp2>,Opd)` -/
 def parseOpdToks : Nat → List String → Option (Opd × List String)
   | 0, _ => none
   | fuel + 1, toks =>
@@ -136,6 +136,14 @@ def parseOpdToks : Nat → List String → Option (Opd × List String)
     | "fps" :: hf :: h :: x :: rest =>
       match textOfHex hf, textOfHex h, parseSfxTok x with
       | some f, some b, some x => some (fieldPhraseSfxOpd f b x, rest)
+      | _, _, _ => none
+    | "r" :: lo :: hi :: h1 :: h2 :: rest =>
+      match textOfHex h1, textOfHex h2 with
+      | some w1, some w2 => some (rangeOpd (lo == "1") (hi == "1") w1 w2, rest)
+      | _, _ => none
+    | "fr" :: hf :: lo :: hi :: h1 :: h2 :: rest =>
+      match textOfHex hf, textOfHex h1, textOfHex h2 with
+      | some f, some w1, some w2 => some (fieldRangeOpd f (lo == "1") (hi == "1") w1 w2, rest)
       | _, _, _ => none
     | "n" :: k :: rest =>
       match k.toNat?, parseOpdToks fuel rest with
